@@ -6,7 +6,7 @@ cd /verif
 for D in seeded/*/; do
   ID=$(basename $D); PID=${ID%_*}
   ALSO=$(cat $D/also 2>/dev/null)
-  git -C /repo apply $D/patch.diff 2>/dev/null || { echo "$ID: patch does not apply"; continue; }
+  git -C /repo apply /verif/$D/patch.diff 2>/dev/null || { echo "$ID: patch does not apply"; continue; }
   LINE="$ID:"
   RES="{"
   for P in $PID $ALSO; do
